@@ -2,4 +2,6 @@ import Khttp.Gen.Consts
 import Khttp.Model.Basic
 import Khttp.Model.Swar
 import Khttp.Model.Headers
+import Khttp.Model.Method
 import Khttp.Model.Parser
+import Khttp.Spec.Head
